@@ -1,5 +1,5 @@
 /* h_util <stream>: S-util correspondence harness for the utility layer.
-   streams: mt (MT19937 + samplers), stop (stop.c predicates), sobol, rb (red-black tree).
+   streams: mt (MT19937 + samplers), stop (stop.c predicates), sobol, rb (red-black tree), rescale (rescale.c).
    One op per line on stdin, one canonical result line per op on stdout. */
 #include "hcommon.h"
 #include "nlopt.h"
@@ -244,6 +244,47 @@ static void do_rb(char *line)
     else printf("bad-op\n");
 }
 
+/* ------------------------------------------------------------------ rescale */
+/* rescale.c: cr <dx> | rs <s|-> <x> | us <s|-> <x> | rb <lb> <ub> | sb <s> <lb> <ub> */
+static void do_rescale(char *line)
+{
+    char *tok[8]; int nt = 0; char *save = NULL, *t;
+    double *a = NULL, *b = NULL, *c = NULL;
+    int n;
+    for (t = strtok_r(line, " \n", &save); t && nt < 8; t = strtok_r(NULL, " \n", &save)) tok[nt++] = t;
+    if (!nt) return;
+    if (!strcmp(tok[0], "cr") && nt >= 2) {
+        double *s;
+        n = parselist(tok[1], &a);
+        s = nlopt_compute_rescaling((unsigned) n, a);
+        phexlist(stdout, s, n); printf("\n");
+        free(s);
+    } else if ((!strcmp(tok[0], "rs") || !strcmp(tok[0], "us")) && nt >= 3) {
+        parselist(tok[1], &a);
+        n = parselist(tok[2], &b);
+        if (tok[0][0] == 'r') {           /* nlopt_new_rescaled = malloc + nlopt_rescale */
+            c = nlopt_new_rescaled((unsigned) n, a, b);
+        } else {
+            c = (double *) malloc(sizeof(double) * (n > 0 ? n : 1));
+            nlopt_unscale((unsigned) n, a, b, c);
+        }
+        phexlist(stdout, c, n); printf("\n");
+    } else if (!strcmp(tok[0], "rb") && nt >= 3) {
+        n = parselist(tok[1], &a); parselist(tok[2], &b);
+        nlopt_reorder_bounds((unsigned) n, a, b);
+        phexlist(stdout, a, n); printf(" "); phexlist(stdout, b, n); printf("\n");
+    } else if (!strcmp(tok[0], "sb") && nt >= 4) {
+        double *sl, *su;
+        n = parselist(tok[1], &a); parselist(tok[2], &b); parselist(tok[3], &c);
+        sl = nlopt_new_rescaled((unsigned) n, a, b);
+        su = nlopt_new_rescaled((unsigned) n, a, c);
+        nlopt_reorder_bounds((unsigned) n, sl, su);
+        phexlist(stdout, sl, n); printf(" "); phexlist(stdout, su, n); printf("\n");
+        free(sl); free(su);
+    } else printf("bad-op\n");
+    free(a); free(b); free(c);
+}
+
 int main(int argc, char **argv)
 {
     char *line = NULL;
@@ -255,6 +296,7 @@ int main(int argc, char **argv)
         else if (!strcmp(stream, "stop")) do_stop(line);
         else if (!strcmp(stream, "sobol")) do_sobol(line);
         else if (!strcmp(stream, "rb")) do_rb(line);
+        else if (!strcmp(stream, "rescale")) do_rescale(line);
         else { fprintf(stderr, "unknown stream\n"); return 2; }
     }
     fflush(stdout);
